@@ -295,16 +295,46 @@ def check(ctx):
                     strs = pb.const_strs() if pb else []
                     return strs[0] if len(strs) == 1 else None
                 return None
-            for (bb, keep, lose) in f.filter_branches(0, c.bb):
-                for lab in keep:
-                    o, outcome = f.cond_struct(bb, lab)
-                    if o[0] == "call" and o[1].name in ("eq", "ne") and (lit_of(o[1], 1) in ("emit", "emit_to") or lit_of(o[1], 0) in ("emit", "emit_to")):
-                        continue
-                    if o[0] == "call" and short_path(o[1].best) == "EventParser::is_likely_tauri_emitter" and outcome == "true" \
-                            and "ExprMethodCall.receiver" in f.describe_origin(f.origin(o[1].args[-1]), deep=2):
-                        seen_h = True
-                        continue
-                    extra.append("%s=%s" % (f.describe_origin(o)[:60], outcome))
+            state = {"h": False}
+
+            def judge(effect_bb, depth=0):
+                """conditions that can divert control away from effect_bb: each must be an accepted one; a bool that merely materialises such
+                conditions (`matches!(name, "emit" | "emit_to")`, `let ok = a && b`) is looked through"""
+                out_ = []
+                for (bb, keep, lose) in f.filter_branches(0, effect_bb):
+                    for lab in keep:
+                        o, outcome = f.cond_struct(bb, lab)
+                        if o[0] == "call" and o[1].name in ("eq", "ne") and (lit_of(o[1], 1) in ("emit", "emit_to") or lit_of(o[1], 0) in ("emit", "emit_to")):
+                            continue
+                        if o[0] == "call" and short_path(o[1].best) == "EventParser::is_likely_tauri_emitter" and outcome == "true" \
+                                and "ExprMethodCall.receiver" in f.describe_origin(f.origin(o[1].args[-1]), deep=2):
+                            state["h"] = True
+                            continue
+                        # an arity test that extract_emit_event's own length guards imply (emit needs 2 arguments, emit_to 3) decides nothing new
+                        if o[0] == "bin" and o[1] in ("Ge", "Gt", "Ne", "Lt", "Le", "Eq"):
+                            sides = [o[2], o[3]]
+                            lens = [x for x in sides if x[0] == "call" and x[1].name == "len" and "ExprMethodCall.args" in f.describe_origin(f.origin(x[1].args[0]), deep=2)]
+                            consts = [x[1].get("int") for x in sides if x[0] == "const" and isinstance(x[1], dict) and "int" in x[1]]
+                            if len(lens) == 1 and len(consts) == 1 and sides[0] is lens[0]:
+                                n_ = int(consts[0])
+                                kept = {("Ge", "true"): n_ <= 2, ("Gt", "true"): n_ <= 1, ("Ne", "true"): n_ == 0, ("Lt", "false"): n_ <= 2, ("Le", "false"): n_ <= 1, ("Eq", "false"): n_ == 0}
+                                if kept.get((o[1], outcome)):
+                                    continue
+                        # a bool local that is assigned constants under conditions: judge the conditions under which it gets the kept value
+                        if o[0] == "multi" and depth < 3 and outcome in ("true", "false"):
+                            sw = f.blocks[bb]["term"]
+                            pl = sw["discr"].get("copy") or sw["discr"].get("move") if isinstance(sw.get("discr"), dict) else None
+                            defs_ = f.defs.get(pl["l"], []) if pl and not pl.get("p") else []
+                            want_ = outcome == "true"
+                            tb = [d[1] for d in defs_ if d[0] == "stmt" and d[3]["k"] == "use" and (d[3]["op"].get("const") or {}).get("bool") is want_]
+                            if defs_ and tb and all(d[0] == "stmt" and d[3]["k"] == "use" and "bool" in (d[3]["op"].get("const") or {}) for d in defs_):
+                                for t_ in tb:
+                                    out_.extend(judge(t_, depth + 1))
+                                continue
+                        out_.append("%s=%s" % (f.describe_origin(o)[:60], outcome))
+                return out_
+            extra = judge(c.bb)
+            seen_h = state["h"]
             if extra or not seen_h:
                 r2.bad(V(r2.id, f.id, "extraction-guard:%s" % (";".join(sorted(set(extra))) or "no-heuristic"),
                          "whether an emit call is extracted depends on more (or other) than the method name and is_likely_tauri_emitter(receiver): %s" % (extra or "the heuristic is not consulted"), c.file, c.line))
@@ -344,13 +374,21 @@ def check(ctx):
             r3.bad(V(r3.id, "EventParser::extract_emit_event", "positions:%s" % tuples, "argument positions are %s" % tuples))
     hmf = S.fn("EventParser", "handle_method_call")
     if hmf is not None:
+        # the literals the method name is compared with (==, matches!, match: all are str equality calls in the type-checked program)
         names = set()
-        for x in walk_block(hmf.body):
-            if x.get("k") == "binary" and x["op"] == "==":
-                for side in (x["l"], x["r"]):
-                    s_ = lit_str(side)
-                    if s_:
-                        names.add(s_)
+        for f in P.find("EventParser::handle_method_call"):
+            for c in f.calls:
+                if c.name in ("eq", "ne") and len(c.args) == 2 and c.bb in f.reach_blocks:
+                    for i in (0, 1):
+                        s_ = c.arg_str(i)
+                        if s_ is None:
+                            k_ = c.const_arg(i)
+                            if k_ and "promoted" in k_:
+                                pb = P.fns.get("%s::{promoted#%d}" % (f.id, k_["promoted"]))
+                                strs = pb.const_strs() if pb else []
+                                s_ = strs[0] if len(strs) == 1 else None
+                        if s_ is not None and "ExprMethodCall.method" in f.describe_origin(f.origin(c.args[1 - i]), deep=3):
+                            names.add(s_)
         if names == {"emit", "emit_to"}:
             r3.ok("methods: emit, emit_to")
         else:
